@@ -79,8 +79,8 @@ CHECKS = {
         design='5/C14'),
     'C16': dict(
         technique='explicit-state BFS to fixpoint over price streams on the real signals + exhaustive session cadence enumeration',
-        text="Part 1: for each signal class and lookback subset the search over append(asset, price) streams closes (state = true trailing window U actual deque contents) - assets known at creation, late assets, and an asset whose name extends another one's. Part 2: complete sessions with a real SignalsCollection (two lookbacks) over start alignments, lengths, every universe-entry variant of a second asset in both mapping orders, and a handler that was given a universe: buffers and the values read through __call__.",
-        note='Trusted: list-based definitions; buffer contents read from AssetPriceBuffers.prices.',
+        text="Part 1: for each signal class and lookback subset the search over append(asset, price) streams closes (state = true trailing window U actual deque contents) - assets known at creation, late assets, and an asset whose name extends another one's. Part 2: complete sessions with a real SignalsCollection (two lookbacks) over start alignments, lengths, every universe-entry variant of a second asset in both mapping orders, and a handler that was given a universe: every signal value (lookbacks 1, 2, 12, every member) is read through __call__ at every daily rebalance by a recording alpha model and compared with the definition over exactly the closes since entry.",
+        note='Trusted: list-based definitions. Buffer contents (AssetPriceBuffers.prices) only refine the canonical key of part 1 when present; no verdict depends on how observations are stored.',
         design='5/C16'),
     'C19': dict(
         technique='exhaustive grids (membership, optimisers) + exhaustive entry-time x schedule enumeration of complete real sessions',
